@@ -52,7 +52,7 @@ def g1 : Grid Int := { g0 with dtype := ⟨.float, 4⟩, nodata := 2143289344, d
 
 theorem g0_ok : GridOK ioToy g0 :=
   ⟨⟨by decide, by decide, by decide, by decide, fun a v h => by simp [lookup, g0] at h,
-    fun h => absurd h (by decide)⟩, by decide, by decide, by decide, by decide⟩
+    fun h => absurd h (by decide)⟩, by decide, by decide, by decide⟩
 
 
 def ioQ : NumIO ℚ where
